@@ -1,5 +1,6 @@
 """C18 Reading any text yields models or a Hy syntax error (and terminates)."""
 import glob
+import json
 import os
 import signal
 import sys
@@ -12,7 +13,7 @@ RULE = (
     "or raises LexException/PrematureEndOfInput, nothing else, within 60 s (re-run with 600 s before reporting); non-trivial = the text contains a "
     "syntax-significant character ( ) [ ] { } \" # \\ ; ' ` ~ and is distinct"
 )
-ASSUMPTIONS = ["termination is observed through a 60 s alarm per read, re-run with 600 s (inputs normally read in < 10 ms)"]
+ASSUMPTIONS = ["termination is observed through a 20 s limit per read (alarm inside a helper process, which is killed if the read is stuck in C code), re-run with 120 s (inputs normally read in < 10 ms)"]
 
 TOKENS = [
     "(", ")", "[", "]", "{", "}", '"', "'", "`", "~", "~@", "#", "#*", "#**", "#^", "#_", "#(", "#{", "#[", "#[[", "]]",
@@ -52,7 +53,48 @@ def _alarm(signum, frame):
     raise _Timeout()
 
 
-def read_outcome(text, limit=60):
+_HELPER = [None]
+
+
+def read_outcome(text, limit=20):
+    """The read happens in a helper process (one per shard, started on first use): a read stuck inside C code (e.g. a
+    backtracking regular expression) cannot be interrupted by a Python signal handler, but the helper can be killed."""
+    import select
+    import subprocess
+
+    from vf import core
+
+    h = _HELPER[0]
+    if h is None or h.poll() is not None:
+        h = _HELPER[0] = subprocess.Popen([sys.executable, "-c", "from vf.props import c18; c18._serve()"], stdin=subprocess.PIPE,
+                                          stdout=subprocess.PIPE, cwd=core.ROOT)
+    try:
+        h.stdin.write(json.dumps([text, limit]).encode() + b"\n")
+        h.stdin.flush()
+        ready, _, _ = select.select([h.stdout], [], [], limit + 20)
+        line = h.stdout.readline() if ready else b""
+    except (BrokenPipeError, OSError):
+        ready, line = True, b""
+    if not ready:
+        h.kill()
+        h.wait()
+        _HELPER[0] = None
+        return ("timeout",)
+    if not line:
+        rc = h.wait()
+        _HELPER[0] = None
+        return ("other", "InterpreterDied", "exit-%s" % rc, "the reading process died (exit status %s)" % rc)
+    return tuple(json.loads(line))
+
+
+def _serve():
+    for line in sys.stdin.buffer:
+        text, limit = json.loads(line)
+        sys.stdout.write(json.dumps(_read_outcome_here(text, limit)) + "\n")
+        sys.stdout.flush()
+
+
+def _read_outcome_here(text, limit=20):
     """-> ('models', n) | ('LexException', msg) | ('PrematureEndOfInput', msg) | ('other', type, msg) | ('timeout',)"""
     import hy
     from hy.reader.exceptions import LexException, PrematureEndOfInput
@@ -95,7 +137,7 @@ def check_text(text):
     if out[0] in ("models", "LexException", "PrematureEndOfInput"):
         return None, out
     if out[0] == "timeout":
-        out2 = read_outcome(text, limit=600)
+        out2 = read_outcome(text, limit=120)
         if out2[0] != "timeout":
             return None, out2
         return ("no-termination", dict(text=text)), out
